@@ -202,7 +202,7 @@ theorem validate_rejects (ks : PKeyset) :
   · rintro w ⟨k, hk, hid, hst⟩; exact hst (w.2.2.2.1 k hk hid)
 
 theorem validKey_iff (k : PKey) : validKey k = true ↔
-    k.hasKeyData = true ∧ (k.prefixType = 1 ∨ k.prefixType = 2 ∨ k.prefixType = 3 ∨ k.prefixType = 4) ∧
+    k.hasKeyData = true ∧ (k.prefixType = 1 ∨ k.prefixType = 2 ∨ k.prefixType = 3 ∨ k.prefixType = 4 ∨ k.prefixType = 5) ∧
     (k.status = 1 ∨ k.status = 2 ∨ k.status = 3) := by
   simp only [validKey, Bool.and_eq_true, Bool.or_eq_true, beq_iff_eq, and_assoc, or_assoc]
 
